@@ -389,12 +389,18 @@ def run_one(rep, bindir, repo, conf, level, mode, impl, extra):
     all_failed = list(dict.fromkeys(res["failed_names"]))
     listed = [fn for fn in all_failed if "disagreement:%s:%s" % (mode, shape_class(shape_of(fn))) in known_keys]
     remaining = [fn for fn in all_failed if fn not in set(listed)]
+    confirm_deadline = time.time() + float(os.environ.get("VERIF_C02_CONFIRM_S") or 1500)
+    unconfirmed = 0
     for rnd in range(2):
-        if not remaining:
+        if not remaining or (rnd > 0 and time.time() > confirm_deadline):
             break
         still = []
         for i in range(0, len(remaining), 40):
             chunk = remaining[i:i + 40]
+            if time.time() > confirm_deadline:
+                # out of time for confirming: what could not be re-run alone is counted, not reported
+                unconfirmed += len(remaining) - i
+                break
             ex = list(extra)
             for fn in chunk:
                 ex += ["--run", fn]
@@ -405,6 +411,10 @@ def run_one(rep, bindir, repo, conf, level, mode, impl, extra):
             else:
                 still += [fn for fn in chunk if fn in r2["failed_names"]]
         remaining = still
+    if unconfirmed:
+        rep["exhaustive"] = False
+        rep["notes"].append("%s: %d failure(s) of the full run could not be re-run in isolation within the time allowed and are not reported" % (tag, unconfirmed))
+        rep["capped"] = "confirmation of failing cases cut short"
     remaining = remaining + listed
     by_shape = {}
     for fn in remaining:
